@@ -38,11 +38,20 @@ def rule_inventory(rep, crate):
         cnt[k] += 1
         first.setdefault(k, (f, line))
         rep.inst(rid, '%s|%s|%s#%d' % (k[0], kind, what, cnt[k]), detail=dict(justification=TABLE.get(k, (0, None))[1]))
-    for k, n in sorted(cnt.items()):
-        allowed, reason = TABLE.get(k, (0, None))
-        if n > allowed:
-            f, line = first[k]
-            rep.viol(rid, 'panic-site:%s:%s:%s' % k, '%d panic-capable construct(s) `%s` (%s) in %s, %d justified: a panic here would surface as "proc-macro derive panicked"' % (n, k[2], k[1], k[0], allowed), loc(f, line))
+    # Sites are justified per (function, construct) in the table, but compared crate-wide per construct: moving code
+    # between functions (extract method, loop -> closure) keeps the totals, a new panic-capable construct does not.
+    total = collections.Counter()
+    allowed_total = collections.Counter()
+    for (f_, kind, what), n in cnt.items():
+        total[(kind, what)] += n
+    for (f_, kind, what), (n, _r) in TABLE.items():
+        allowed_total[(kind, what)] += n
+    for (kind, what), n in sorted(total.items()):
+        if n > allowed_total[(kind, what)]:
+            # name the functions that have more sites of this construct than the table justifies for them
+            over = sorted(k for k, c in cnt.items() if k[1] == kind and k[2] == what and c > TABLE.get(k, (0, None))[0])
+            f, line = first[over[0]] if over else first[[k for k in cnt if k[1] == kind and k[2] == what][0]]
+            rep.viol(rid, 'panic-site:%s:%s' % (kind, what), '%d panic-capable construct(s) `%s` (%s) reachable from generate, %d justified; unjustified in: %s — a panic here would surface as "proc-macro derive panicked"' % (n, what, kind, allowed_total[(kind, what)], ', '.join(k[0] for k in over[:4]) or '?'), loc(f, line))
     # mechanical side conditions of two table entries
     rid2 = rep.rule('M-C19a-unwrap', 'the two unconditional unwrap/expect of generate are applied to Errors::render() of an Errors that just received an error, and to syn::parse2 of the input', floor=2)
     for bi, t in find_calls(gen, r'Option::<T>::unwrap$'):
